@@ -24,6 +24,11 @@ from harness.common import run_driver, fl, fll, f2b, b2f, close, err_enum, VERIF
 
 ID = "C15"
 LEAN_MODULES = ["HierArc.Props.C15"]
+# "parameter names in vector order" rests on the generated ladders of ParamManager and the generated form of
+# MCMCSampler.param_names (C01's translator); when the translator cannot follow a rewrite, the last generated model stands
+# in and the clause is tied by the names oracle on real samplers (all five blocks populated)
+TRANSLATE = ["ladders"]
+TRANSLATOR_FALLBACK = True
 RULE = ("histories of fresh / continued / stopped mcmc_emcee calls on one emcee backend (in-memory or HDF5 "
         "under ctx.tmp): 2-4 free parameters (FLCDM / FwCDM cosmology + lambda_mst / a_ani), 8-16 walkers, "
         "1-8 steps per call, start balls inside the box and poking out of it, stop points = every likelihood "
@@ -41,7 +46,8 @@ ASSUMPTIONS = [
     "HDF5 atomicity under SIGKILL, float rounding inside the likelihood and emcee's move are outside the model",
 ]
 TRUSTED = ["hand-written model HierArc/Model/Mcmc.lean tied by differential execution of whole histories",
-           "emcee 3.1.6 backends / ensemble move (observed, assumptions re-checked per run)"]
+           "emcee 3.1.6 backends / ensemble move (observed, assumptions re-checked per run)",
+           "translator/ladders.py (Python ast of ParamManager/*.py and MCMCSampler.param_names -> Gen/Ladders.lean), shared with C01"]
 
 # The model has both variants of the empty-store continue (HierArc.Mcmc.runOpGen fallback).  `False` = the
 # code as it is in the unchanged tree (p0 = None unconditionally).  Set to True together with applying
@@ -989,14 +995,16 @@ LEVEL_TEXT = ("Lean 4 theorems (ℝ carrier, emcee's move and the likelihood as 
               "after k steps), with an exact characterisation of when a continue goes through; a completed fresh "
               "run returns n_run·n_walkers samples of dimension num_param; every stored/returned walker carries "
               "the likelihood of its own position; every stored walker lies in the box if the evaluated start "
-              "balls do (with a proved counterexample without that hypothesis). Validated only: parameter names "
-              "in vector order (C01's theorem), the emcee facts the model assumes, HDF5 behaviour under SIGKILL — "
+              "balls do (with a proved counterexample without that hypothesis); parameter names in vector order "
+              "(names_in_vector_order: param_names forwards param_list, the three block orders agree, plain name = key of "
+              "the slot, one name per slot, slot j of a block holds component i+j — on the ladders re-translated from "
+              "ParamManager on every run). Validated only: the emcee facts the model assumes, HDF5 behaviour under SIGKILL — "
               "all exercised on real emcee runs (every stop point of short runs, in-memory and HDF5, real SIGKILL "
               "in the thorough tier) with bitwise comparison against the model and the property oracle")
 LEVEL_NOTE = ("partial: emcee's move/accept rule and backends enter as stated assumptions re-checked on every run; "
-              "names-in-order clause validated, not proved here; HDF5 atomicity under SIGKILL is outside the model; "
+              "HDF5 atomicity under SIGKILL is outside the model; "
               "theorems over lists of real vectors (no float semantics needed: the store only copies values)")
-TECHNIQUE = ("Lean 4 proof (induction over run histories / step lists, invariants of the stored list) + "
+TECHNIQUE = ("Lean 4 proof (induction over run histories / step lists, invariants of the stored list; decide on generated ladders) + "
              "model/implementation correspondence on whole histories with simulated and real interruptions")
 
 if __name__ == "__main__":
